@@ -35,6 +35,8 @@ structure Entry where
   o : RObj
   bal : Bool
   ex : Bool
+  /-- a `ReactionSystem` keeps references to its member objects (names here) -/
+  members : List String := []
 
 structure St where
   pkgs : List (Nat × Pk) := []
@@ -192,6 +194,22 @@ def sameConfig (es : List Entry) : Except Err (Basis × List Nat × List Nat × 
     if rest.all fun e' => e'.o.phases == o.phases && e'.o.pkg == o.pkg && e'.o.basis == o.basis
     then .ok (o.basis, o.phases, o.pkg, o.mw) else .error .valueError
 
+/-- a `ReactionSystem` is looked at through its references: the members as they are *now*
+(stoichiometry and basis; `member.basis = …` may have been used after the system was built) -/
+def St.current (st : St) (e : Entry) : Entry :=
+  if e.members.isEmpty then e else
+  match e.members.mapM st.obj with
+  | none => e
+  | some es =>
+    match es.mapM (fun m => match m.o.kind with | .member k => some k | .system _ => none) with
+    | none => e
+    | some ms =>
+      -- only plain `Reaction` members can change their basis; sets keep the label they were built with
+      let bases := es.filterMap fun m => match m.o.kind with
+        | .member (.single _) => some m.o.basis
+        | _ => none
+      { e with o := { e.o with kind := .system ms, memberBases := bases }, ex := es.all (·.ex) }
+
 def callLine (o : RObj) (nuEx : Bool) (mat : Material) (flatIn : Vec) (streamWt : Bool)
     (force : Bool := false) : String :=
   -- negsum of the reacted material in the reaction's own layout is reported for the
@@ -313,9 +331,9 @@ def step (st : St) (line : String) : St × String :=
           (st.put name { o := o', bal := e.bal, ex := false }, showRxn o' rx' e.bal false)
       | _ => (st, "bad-op")
     | _, _ => (st, "bad-op")
-  | [op, name, ms] =>
+  | [op, name, ms0] =>
     if op == "par" || op == "ser" || op == "sys" then
-      match members st (splitComma ms) with
+      match members st (splitComma ms0) with
       | none => (st, "noref")
       | some es =>
         match sameConfig es with
@@ -330,7 +348,8 @@ def step (st : St) (line : String) : St × String :=
             match msO with
             | none => (st, "bad-op")
             | some ms =>
-              (st.put name { o := { kind := .system ms, basis, phases, pkg, mw }, bal, ex }, "ok")
+              (st.put name { o := { kind := .system ms, basis, phases, pkg, mw }, bal, ex,
+                             members := splitComma ms0 }, "ok")
           else
             let rxsO := es.mapM fun e => match e.o.kind with
               | .member (.single rx) => some rx
@@ -344,13 +363,15 @@ def step (st : St) (line : String) : St × String :=
   | "call" :: name :: "arr" :: rest =>
     match st.obj name, (kv rest "rows").bind parseRows with
     | none, _ => (st, "noref")
-    | some e, some rows =>
+    | some e0, some rows =>
+      let e := st.current e0
       (st, callLine e.o e.ex (.array rows) rows.flatten false (kv rest "mode" == some "force"))
     | _, _ => (st, "bad-op")
   | "call" :: name :: "stream" :: rest =>
     match st.obj name, (kv rest "pkg").bind (·.toNat?) |>.bind st.pkg, kv rest "ph",
           (kv rest "rows").bind parseRows with
-    | some e, some pk, some ph, some rows =>
+    | some e0, some pk, some ph, some rows =>
+      let e := st.current e0
       match phaseTuple ph.toList with
       | .error _ => (st, "bad-op")
       | .ok phases =>
